@@ -51,6 +51,36 @@ VarPcN(v) ==
                RMul(RMul(RFrac(IF "var_coeff" \in Mutations THEN 3 ELSE 2, N * (N - 1)), ob), q[1])))))
 PcCrossN(v, w) == RFrac(SumSeq([i \in 1..Len(v) |-> v[i] * w[i]]), SumSeq(v) * SumSeq(w))
 
+\* ---- the same estimators in arbitrary precision (BigInt.tla) for realistic sample sizes; rationals <<integer, natural>>
+Big == INSTANCE BigInt WITH Base <- 10000
+BigFalling(v, k) == FoldLeft(LAMBDA acc, c : Big!BAdd(acc, Big!BProdInts([j \in 1..k |-> c - (j - 1)])), Big!BZero, v)    \* sum_i c_i (c_i-1) ... (c_i-k+1)
+BigPcN(v) == RWith(Big!BSumInts(v), LAMBDA N :
+               Big!QFracB(BigFalling(v, 2), Big!BMul(N, Big!BSub(N, Big!BOf(1)))))
+BigPcCrossN(v, w) == Big!QFracB(FoldLeft(LAMBDA acc, i : Big!BAdd(acc, Big!BMul(Big!BOf(v[i]), Big!BOf(w[i]))), Big!BZero, [i \in 1..Len(v) |-> i]),
+                               Big!BMul(Big!BSumInts(v), Big!BSumInts(w)))
+BigVarPcN(v) ==
+    RWith(Big!BSumInts(v), LAMBDA N :
+      RWith(<<Big!BSub(N, Big!BOf(1)), Big!BSub(N, Big!BOf(2)), Big!BSub(N, Big!BOf(3))>>, LAMBDA d :        \* N-1, N-2, N-3
+        RWith(Big!BMul(N, d[1]), LAMBDA nn1 :                                                                 \* N (N-1)
+          RWith(<<Big!QFracB(BigFalling(v, 2), nn1),
+                  Big!QFracB(BigFalling(v, 3), Big!BMul(nn1, d[2])),
+                  Big!QFracB(Big!BMul(Big!BOf(2), Big!BSub(Big!BMul(Big!BOf(2), N), Big!BOf(3))), Big!BMul(d[2], d[3]))>>, LAMBDA q :   \* p2, p3, beta
+            RWith(Big!QAdd(Big!QOf(1), q[3]), LAMBDA ob :
+              Big!QAdd(Big!QSub(Big!QMul(Big!QMul(Big!QFracB(Big!BMul(Big!BOf(4), d[2]), nn1), ob), q[2]),
+                                Big!QMul(q[3], Big!QMul(q[1], q[1]))),
+                       Big!QMul(Big!QMul(Big!QFracB(Big!BOf(2), nn1), ob), q[1])))))))
+HasDoubletons(c) == Len(c) > 1 /\ c[2] # 0
+\* Chao1 / Chao2 / classical variance with f1, f2 as large as a repertoire's singleton / doubleton counts
+BigChao(c, withoutF2) == IF Len(c) = 1 \/ c[2] = 0
+                         THEN (IF withoutF2 THEN Big!QFracB(Big!BAdd(Big!BMul(Big!BOf(2), Big!BSumInts(c)), Big!BMul(Big!BOf(c[1]), Big!BOf(c[1] - 1))), Big!BOf(2)) ELSE NaN)
+                         ELSE Big!QAdd(<<Big!BSumInts(c), <<1>> >>, Big!QFracB(Big!BMul(Big!BOf(c[1]), Big!BOf(c[1])), Big!BMul(Big!BOf(2), Big!BOf(c[2]))))
+BigVarChao(c) == IF Len(c) = 1 \/ c[2] = 0 THEN NaN
+                 ELSE RWith(<<Big!BOf(c[1]), Big!BOf(c[2])>>, LAMBDA f :
+                        RWith(<<Big!BMul(f[1], f[1]), Big!BMul(f[2], f[2])>>, LAMBDA sq :                       \* f1^2, f2^2
+                          Big!QAdd(Big!QAdd(Big!QFracB(sq[1], Big!BMul(Big!BOf(2), f[2])),
+                                            Big!QFracB(Big!BMul(sq[1], f[1]), sq[2])),
+                                   Big!QFracB(Big!BMul(sq[1], sq[1]), Big!BMul(Big!BOf(4), Big!BMul(sq[2], f[2]))))))
+
 \* ---- richness
 Chao1(c) == IF Len(c) = 1 \/ c[2] = 0 THEN RFrac(2 * SumSeq(c) + c[1] * (c[1] - 1), 2)
             ELSE RAdd(R(SumSeq(c)), RMul(RFrac(c[1], c[2]), RFrac(c[1], 2)))      \* f1^2 / (2 f2), ratio first (32-bit integers)
@@ -95,6 +125,10 @@ Evaluate ==
                 [] kind = "var" -> [pc |-> PcN(n), var |-> VarPcN(n)]
                 [] kind = "cross" -> [pc |-> PcCrossN(n, m)]
                 [] kind = "fof" -> [chao1 |-> Chao1(n), chao2 |-> Chao2(n), var |-> VarChao(n)]
+                [] kind = "bigmean" -> [pc |-> BigPcN(n)]
+                [] kind = "bigvar" -> [pc |-> BigPcN(n), var |-> BigVarPcN(n)]
+                [] kind = "bigcross" -> [pc |-> BigPcCrossN(n, m)]
+                [] kind = "bigfof" -> [chao1 |-> BigChao(n, TRUE), chao2 |-> BigChao(n, FALSE), var |-> BigVarChao(n)]
                 [] kind = "sets" -> [jaccard |-> IF Elems(n) \cup Elems(m) = {} THEN NaN ELSE Jaccard(n, m),
                                      overlap |-> Overlap(n, m), coef |-> OverlapCoef(n, m)]
     /\ step' = "done"
@@ -118,6 +152,18 @@ VarUnbiased == (Done /\ kind = "var") =>
     REq(RMul(R(Multi(n)), RSub(RMul(res.pc, res.pc), res.var)),
         R(SumSeq([i \in 1..Len(n) |-> SumSeq([j \in 1..Len(n) |-> Multi(Dec(Dec(n, i, 2), j, 2))])])))
 PcInUnit == (Done /\ kind \in {"mean", "var", "cross"}) => (RLe(R(0), res.pc) /\ RLe(res.pc, R(1)))
+
+\* the arbitrary-precision transcriptions are the same functions as the 32-bit rational ones wherever both can be evaluated
+BigAgrees ==
+    /\ (Done /\ kind \in {"mean", "var"}) => Big!QEq(BigPcN(n), Big!QOfRat(res.pc))
+    /\ (Done /\ kind = "var") => Big!QEq(BigVarPcN(n), Big!QOfRat(res.var))
+    /\ (Done /\ kind = "cross") => Big!QEq(BigPcCrossN(n, m), Big!QOfRat(res.pc))
+    /\ (Done /\ kind = "fof") =>
+          /\ Big!QEq(BigChao(n, TRUE), Big!QOfRat(res.chao1))
+          /\ (res.chao2 = NaN) = ~HasDoubletons(n)
+          /\ (res.chao2 # NaN => Big!QEq(BigChao(n, FALSE), Big!QOfRat(res.chao2)))
+          /\ (res.var = NaN) = ~HasDoubletons(n)
+          /\ (res.var # NaN => Big!QEq(BigVarChao(n), Big!QOfRat(res.var)))
 
 (***************************************************************************)
 (* C16                                                                     *)
